@@ -13,7 +13,14 @@ CFG = {
             '(integer data: every float32 operation exact, results compared bit for bit with the scalar loop and the Z model); '
             'sym: f(x,y) vs f(y,x) bit patterns on arbitrary floats for all six metrics incl. haversine; '
             'bits: lengths 1..130 and 64k-1, 64k, 64k+1 up to 4096 (thorough: all) x thresholds {0.5, random integer per position}, values in [-2,2]; '
-            'float: tolerance TEST on arbitrary floats (denormals, 1e-30..1e15 scales, mixed signs) judged by the harness. '
+            'float: tolerance TEST on arbitrary floats (denormals, 1e-30..1e15 scales, mixed signs) judged by the harness; '
+            'pq: product-quantised stores (vectorstore.New over a memory bucket) for euclidean, dot, cosine x every dimension 2..16 x {1,2,4} sub-vectors '
+            'dividing it, 2..8 centroids (thorough: 12 rounds), integer and half-integer coordinates in [-4,4]; training sets alternately made of K '
+            'prototypes per sub-vector (centroids = prototypes, all float32 arithmetic exact, compared exactly) and of arbitrary vectors with duplicates and '
+            'zero sub-vectors (centroids = cluster means, 2^-18 relative allowance); after Fit: new points and updates of trained points (sub-vector '
+            'orthogonal to a centroid, duplicates, vectors made of centroids, zero sub-vectors, random); recorded: the whole centroid table, vector + code '
+            'of every point written after training, DistanceFromPoint both ways for sampled pairs (same point, trained vs later, sharing a centroid, random), '
+            'DistanceFromFloat for queries (stored vector, orthogonal to a centroid, zero, random); every third store again after Flush + reopen. '
             'distinct = distinct (stream, length, offsets, pattern, modification) tuples, hash-set counted',
     'assumptions': ['"up to floating-point rounding" is outside the theorems: they are exact-arithmetic statements over Z about the kernel SHAPE',
                     'float32 rounding is covered by the run: bit-for-bit on integer data where every operation is exact, and a tolerance test on arbitrary floats',
@@ -21,13 +28,21 @@ CFG = {
                     'ClassicalDedekindReals.sig_forall_dec, ClassicalDedekindReals.sig_not_dec, FunctionalExtensionality.functional_extensionality_dep)',
                     'bit-vector values and thresholds are passed to Coq multiplied by 2 so that the threshold 0.5 is an integer',
                     'x and y have equal length (guaranteed by request validation, C18); c20_oob_when_lengths_differ shows what happens otherwise',
-                    'NaN results in the symmetry stream are one value (payloads not compared)'],
+                    'NaN results in the symmetry stream are one value (payloads not compared)',
+                    'product quantiser: the reference is distFn on the TRAINED centroids (cosine = euclidean there, as newProductQuantizer decides); how good the '
+                    'centroids are (k-means) is not part of the property; codes of points present at training time are k-means labels (always euclidean) '
+                    'and only enter the distance checks, the argmin check is for points written after training',
+                    'product quantiser training is not repeatable (k-means seeds itself from the process-global generator, Go map iteration order): a replay '
+                    'regenerates the same input vectors, the verdicts always use the centroids / table / codes that were observed',
+                    'pq stream on stores whose centroids are not multiples of 1/8: a float32 result may differ from the exact value by 2^-18 of the sum of the '
+                    'magnitudes of its terms, and the chosen centroid may miss the exact minimum by that much'],
     'trusted_extra': ['translator gen/gen_asm_params.py (line-by-line recognition of dot.s / euclidean.s, every instruction must match; '
                       'resolves Go operand order; exit 3 on any unknown line)',
                       'the semantics Model_C20.v gives to the recognised instructions (VMOVUPS, VFMADD231PS, VSUBPS, VADDPS, VEXTRACTF128, VHADDPS, '
                       'VMOVSS, VSUBSS, VFMADD231SS, VXORPS) -- validated only by the differential run',
                       'harness tolerance arithmetic of the float stream (float64 reference)',
-                      '/repo/shard/vectorstore/export_verif.go (build tag verif): wrapper around binaryQuantizer.encode'],
+                      '/repo/shard/vectorstore/export_verif.go (build tag verif): wrapper around binaryQuantizer.encode; read-only accessors VerifPQState '
+                      '(flat centroids and centroid distance table of a product quantiser) and VerifPQCodes (centroid ids of a point)'],
 }
 
 CODES = {
@@ -36,11 +51,18 @@ CODES = {
     111: 'distance not symmetric: f(x,y) and f(y,x) differ',
     121: 'hamming on packed words != number of differing positions',
     122: 'jaccard on packed words != 1 - |intersection|/|union| of the per-position definition (tolerance 2^-22)',
+    141: 'product quantiser: a centroid table entry (i,j,k) != distFn(centroid j, centroid k) of sub-vector i (diagonal included)',
+    142: 'product quantiser: the centroid id of a point written after training is not a minimiser of distFn(sub-vector, centroid)',
+    143: 'product quantiser: DistanceFromPoint(a)(b) != sum over the sub-vectors of distFn(centroid of a, centroid of b)',
+    144: 'product quantiser: DistanceFromPoint(a)(b) and DistanceFromPoint(b)(a) differ',
+    145: 'product quantiser: DistanceFromFloat(q)(b) != sum over the sub-vectors of distFn(q_i, centroid of b)',
+    146: 'product quantiser: centroid ids of a point malformed (not one per sub-vector, or an id >= numCentroids)',
     131: 'float stream TEST: |asm - float64 reference| exceeds n*2^-23*sum|terms| + tiny',
     201: 'kernel model (interpreting the generated parameters) != AVX kernel result',
     221: 'packed words differ from model pack',
     222: 'hamming of the observed words differs from the word-level model',
     223: 'jaccard of the observed words differs from the word-level model',
+    241: 'product quantiser: centroids / table do not have numSubVectors*numCentroids*subVectorLen / numSubVectors*numCentroids^2 finite entries',
     290: 'harness generated data outside the exact range (tooling)',
 }
 
@@ -50,7 +72,9 @@ LEVEL = {
             'interpreted by a register/pointer model with bounds -- returns exactly the sum of products / squared differences and never reads '
             'outside either slice, under side conditions that Coq evaluates on the generated parameters (params_ok); with a shorter y it runs out '
             'of bounds (why C18 matters). Word-wise popcount hamming/jaccard on the binary quantiser packing equal the per-position definitions for '
-            'every length and threshold vector, padding bits are zero; all metrics are symmetric. Floating-point rounding is OUTSIDE the theorems: it is '
+            'every length and threshold vector, padding bits are zero; all metrics are symmetric, and so is the product quantiser\'s sum over sub-vectors '
+            'of distFn(centroid of a, centroid of b). The product quantiser itself (argmin encoding, centroid table incl. its diagonal, point and query distances) is '
+            'checked by the differential run only, exactly in Z from the float32 bit patterns. Floating-point rounding is OUTSIDE the theorems: it is '
             'covered by the differential run on integer-valued data where every float32 operation is exact (AVX kernel = scalar loop = Z model, bit '
             'for bit, all block/tail boundaries, unaligned slices with NaN sentinels) and by a tolerance TEST on arbitrary floats (denormals, large '
             'magnitudes, mixed signs) judged by the harness. The haversine value is not modelled, only its symmetry over R.',
